@@ -454,6 +454,16 @@ class Body:
                             out.append((Loc(b, i), root, False, "assign", st))
                             if root != pl["local"]:
                                 out.append((Loc(b, i), pl["local"], False, "assign", st))
+                            # the pointer written through may come out of a call that was handed `&mut L` (Option::as_mut(&mut hi)):
+                            # then the write may land in L
+                            if pl["proj"] and pl["proj"][0]["k"] == "deref":
+                                d0 = self.unique_def(root)
+                                if d0 is not None and d0[1] == "call":
+                                    for a in d0[2]["args"]:
+                                        if a["k"] in ("copy", "move"):
+                                            q = self.expand(a["place"], alias=True)
+                                            if q.root != root and any(e[0] == "ref" for e in q.elems):
+                                                out.append((Loc(b, i), q.root, False, "assign", st))
                 t = self.term(b)
                 if t["k"] == "call" and "dest" in t:
                     pl = t["dest"]
